@@ -113,6 +113,8 @@ def generate(rng, tier):
             es, ns = pts(rng, npar + rng.randint(3, 12), scale=2.0 if deg >= 3 else 8.0)
             d = [rng.randint(-64, 64) / 4.0 for _ in es]
             w = [rng.randint(1, 32) / 8.0 for _ in es] if weighted else None
+            if weighted and rng.random() < 0.2:
+                w = [rng.choice([0.01, 25.0])] * len(es)
             cs.append(mk_trend(es, ns, d, w, deg, f"trend-{deg}"))
         else:
             npts = rng.randint(3, 10 if tier == "quick" else 16)
@@ -130,6 +132,10 @@ def generate(rng, tier):
             ncomp = 1 if kind == "spline" else 2
             data = [[rng.randint(-64, 64) / 4.0 for _ in es] for _ in range(ncomp)]
             w = [[rng.randint(1, 32) / 8.0 for _ in es] for _ in range(ncomp)] if weighted else None
+            if weighted and rng.random() < 0.25:
+                # the same uncertainty everywhere: all weights equal but not 1 (under damping this is NOT the unweighted problem)
+                cw = rng.choice([0.01, 0.25, 4.0, 25.0])
+                w = [[cw for _ in es] for _ in range(ncomp)]
             if damping is None and force is not None and rng.random() < 0.4:
                 damping = 10 ** rng.uniform(-6, 0)       # otherwise: undamped, over-determined (fewer forces than data): weights matter
             cs.append(_spline_case(kind, es, ns, data, w, damping, force, rng.choice([-1.0, -0.25, 0.0, 0.5, 1.0]),
